@@ -34,7 +34,7 @@ class LossCase(object):
     pass
 
 
-def build_loss(c, kind, sel, tp, ts_sel, n, weighted, spread_form, time_kind="sym"):
+def build_loss(c, kind, sel, tp, ts_sel, n, weighted, spread_form, time_kind="sym", y_kind="sym"):
     """construct the real loss object on the 3-state model; returns LossCase (call inside the stub context in sym mode)"""
     from pygom.loss import ode_loss
     m = models.cached("sir3")
@@ -60,7 +60,11 @@ def build_loss(c, kind, sel, tp, ts_sel, n, weighted, spread_form, time_kind="sy
         L.t0 = 0.5
         L.t = [int(i + 1) for i in range(n)]
     count = kind in ("Poisson", "NegBinom")
-    L.y = [[(c.intreal("y%d_%d" % (i, j), lo=1, hi=30) if count else c.real("y%d_%d" % (i, j), lo=0.5, hi=30)) for j in range(p)] for i in range(n)]
+    if y_kind == "sym":
+        L.y = [[(c.intreal("y%d_%d" % (i, j), lo=1, hi=30) if count else c.real("y%d_%d" % (i, j), lo=0.5, hi=30)) for j in range(p)] for i in range(n)]
+    else:
+        # typed observations: a concrete integer-dtype array (case counts as users load them)
+        L.y = [[int(3 + 2 * i + 5 * j) for j in range(p)] for i in range(n)]
     # weights: False (none) | True / "full" ((n,p) matrix, or (n,) for one state) | "per_state" ((p,) vector) | "scalar" ([w])
     if weighted == "per_state":
         wv = [c.real("w_%d" % j, lo=0.2, hi=3) for j in range(p)]
@@ -85,7 +89,10 @@ def build_loss(c, kind, sel, tp, ts_sel, n, weighted, spread_form, time_kind="sy
     else:
         L.sp = [[None] * p for _ in range(n)]
         sp_arg = None
-    y_arg = mat(c, L.y) if p > 1 else arr(c, [r[0] for r in L.y])
+    if y_kind == "sym":
+        y_arg = mat(c, L.y) if p > 1 else arr(c, [r[0] for r in L.y])
+    else:
+        y_arg = np.array(L.y, dtype=np.int64) if p > 1 else np.array([r[0] for r in L.y], dtype=np.int64)
     if weighted == "per_state":
         w_arg = arr(c, L.w[0])
     elif weighted == "scalar":
@@ -168,11 +175,11 @@ def check_binding(c, L, book, integ, x0_expected, label=""):
                     "parameters in force during integration are the supplied values mapped through target_param" + label)
 
 
-def cost_unit(kind, sel, tp, n, weighted=False, spread_form="scalar", entry="cost", ts_sel=None, time_kind="sym"):
+def cost_unit(kind, sel, tp, n, weighted=False, spread_form="scalar", entry="cost", ts_sel=None, time_kind="sym", y_kind="sym"):
     def h(c):
         if c.mode == "sym":
             with stubs.integrator_stubs(c, eig="fixed") as book, stubs.patched(*loss_patches(c)):
-                L = build_loss(c, kind, sel, tp, ts_sel, n, weighted, spread_form, time_kind)
+                L = build_loss(c, kind, sel, tp, ts_sel, n, weighted, spread_form, time_kind, y_kind)
                 x0_used = list(L.x0)
                 if entry == "cost":
                     out = L.obj.cost(L.theta_arg)
@@ -189,7 +196,7 @@ def cost_unit(kind, sel, tp, n, weighted=False, spread_form="scalar", entry="cos
                 check_binding(c, L, book, integ, x0_used)
                 rows = [book.at(fl, ti) for ti in L.t]
         else:
-            L = build_loss(c, kind, sel, tp, ts_sel, n, weighted, spread_form, time_kind)
+            L = build_loss(c, kind, sel, tp, ts_sel, n, weighted, spread_form, time_kind, y_kind)
             x0_used = [float(v) for v in L.x0]
             if entry == "cost":
                 out = L.obj.cost(L.theta_arg)
@@ -215,7 +222,7 @@ def cost_unit(kind, sel, tp, n, weighted=False, spread_form="scalar", entry="cos
             total, _ = ref_cost(c, L, yhat)
             c.prove(near(out, total, c, tol=2e-5), "%s == loss formula on (y[i,j], x_{state_name[j]}(t_i))" % entry)
     return Unit("C06.%s[%s,states=%s,target=%s,n=%d,w=%s,spread=%s,ts=%s%s]" % (entry, kind, "+".join(sel), "all" if tp is None else "+".join(tp), n, weighted, spread_form, ts_sel,
-                                                                              "" if time_kind == "sym" else ",times=" + time_kind), h,
+                                                                              ("" if time_kind == "sym" else ",times=" + time_kind) + ("" if y_kind == "sym" else ",y=" + y_kind)), h,
                 bounds={"model": "S,J,R / beta,gamma", "times": n, "time_inputs": "symbolic reals" if time_kind == "sym" else "concrete %s 1..n with t0=0.5" % time_kind, "observed_states": list(sel), "target_param": tp, "weights": "symbolic" if weighted else "unit",
                         "spread": spread_form}, program={"loss": kind, "sel": list(sel), "tp": tp}, tol=2e-5, max_paths=400)
 
@@ -280,6 +287,9 @@ class C06(Check):
         us.append(cost_unit("Normal", ("R",), ("gamma",), 3, time_kind="int_list"))
         us.append(cost_unit("Square", ("S",), None, 2, entry="costIV", time_kind="int_array"))
         us.append(cost_unit("Square", ("J", "S"), None, 2, entry="residual", time_kind="int_array"))
+        # typed observations (int64 arrays), every loss class
+        for kind, sf in (("Square", "scalar"), ("Normal", "per_state"), ("Poisson", "scalar"), ("Gamma", "scalar"), ("NegBinom", "full")):
+            us.append(cost_unit(kind, ("R", "J") if kind != "Gamma" else ("J",), None, 2, spread_form=sf, y_kind="int64"))
         # every accepted weight form: per-state vector (p,), single scalar [w], with n != p so that the forms cannot be confused
         us.append(cost_unit("Square", ("R", "J"), None, 3, weighted="per_state"))
         us.append(cost_unit("Normal", ("J", "S"), ("gamma",), 3, weighted="per_state", spread_form="per_state"))
